@@ -116,7 +116,8 @@ type Thread struct {
 	dok       bool
 	dcase     int
 	taken     bool
-	pcases    []SelCase // pending receive/send cases, for rendez-vous partners
+	pcases    []SelCase          // pending receive/send cases, for rendez-vous partners
+	starve    map[*chanState]int // ready select cases passed over in a row
 	// cond / rwmutex
 	signaled bool
 	granted  bool
